@@ -134,6 +134,14 @@ def replay(c, pid, trees, behs, nshards=24, timeout=1500, tag="np"):
         return {"VERIF_IN": inpath, "VERIF_OUT": outs[i], "VERIF_SEED": c.seed, "VERIF_TIER": c.tier, "GOMAXPROCS": "2"}
     rs = vlib.go_test_sharded("./internal/verifnode/", "^TestVerifNodePool$", nshards, env, timeout=timeout)
     for i, (rc, out) in enumerate(rs):
+        if rc != 0 and "does not come to rest" in out and "future: timeout" in out:
+            # the node's actors did not answer within their (fixed) timeouts: a machine that is far over-committed while
+            # dozens of node processes start at once. Not a verdict either way: that shard runs once more, on its own.
+            for ext in ("", ".progress"):
+                if os.path.exists(outs[i] + ext):
+                    os.remove(outs[i] + ext)
+            rc, out = vlib.go_test("./internal/verifnode/", "^TestVerifNodePool$", env=dict(env(i), VERIF_SHARD="%d/%d" % (i, nshards)), timeout=timeout)
+            c.notes.append("nodepool shard %d repeated alone after an actor timeout at node start" % i)
         if os.path.exists(outs[i]):
             try:
                 raw = json.load(open(outs[i]))
